@@ -147,6 +147,17 @@ def scalar_forms(v, k=0):
     return [np.float64(v), np.array(float(v)), float(v)][k % 3]
 
 
+def _first_diff(a, b):
+    if a.shape != b.shape:
+        return None
+    with np.errstate(all="ignore"):
+        d = np.where(~((a == b) | (np.isnan(a) & np.isnan(b))))[0]
+    if not len(d):
+        return None
+    i = int(d[np.argmax(np.abs(a[d] - b[d]))]) if np.isfinite(a[d] - b[d]).any() else int(d[0])
+    return {"index": i, "got": float(a[i]), "expected": float(b[i])}
+
+
 def same_result(r1, r2, rtol=0.0, atol=0.0):
     """bitwise (NaN = NaN) or relative / absolute comparison of nested results"""
     if isinstance(r1, (tuple, list)) and isinstance(r2, (tuple, list)):
@@ -315,6 +326,38 @@ class Ctx:
                    lambda: {"first": jsonable(truncate(jsonable(keep))),
                             "third": jsonable(truncate(jsonable(r3))),
                             "fresh": jsonable(truncate(jsonable(base)))})
+
+    def shapes(self, label, fn, x, base, case, rtol=1e-12, atol=0.0):
+        """An element-wise function gives every element the same answer whatever the
+        shape of the array it arrives in: [n] vs [1, n], [n, 1], [k, n/k] (rows mixing
+        the values of different branches) and a 3-D block."""
+        x = np.asarray(x)
+        n = x.size
+        if n < 2:
+            return
+        forms = [x.reshape((1, n)), x.reshape((n, 1))]
+        for k in (2, 3, 5):
+            if n % k == 0 and n // k >= 2:
+                forms.append(x.reshape((k, n // k)))
+                forms.append(x.reshape((n // k, k)))
+                break
+        if n % 4 == 0:
+            forms.append(x.reshape((2, 2, n // 4)))
+        for f in forms:
+            self.tag("shape-variant")
+            self.api(label)
+            try:
+                r = np.asarray(fn(np.ascontiguousarray(f)), dtype=float)
+            except Exception as e:
+                self.check("shape.accepted", False, f"{label}|raises-on-{f.ndim}d-input",
+                           case, {"exc": repr(e)[:300], "shape": list(f.shape)})
+                continue
+            ok = r.shape == f.shape and same_result(r.ravel(), np.asarray(base).ravel(),
+                                                    rtol, atol)
+            self.check("shape.same-elements", ok,
+                       f"{label}|result-depends-on-array-shape", case,
+                       lambda: {"shape": list(f.shape), "result_shape": list(r.shape),
+                                "first_diff": _first_diff(r.ravel(), np.asarray(base).ravel())})
 
     def risky(self, case):
         """synchronously record the case about to be executed (used before calls
